@@ -167,9 +167,9 @@ def wrapper_random(run, prop, classes, n, all_rejects):
 
 def handoff_race(run, prop, classes, all_rejects):
     """Real-time schedules the bubble cannot run: a waiter gives up while unblock() holds the limiter mutex mid hand-off."""
-    out, _ = run.go("^(TestHandoffGiveUpRace|TestUnblockRace|TestArrivalRace|TestReleaseOrder|TestReleaseArrival)$", env={"VERIF_N": 6 if run.tier == "thorough" else 2}, timeout=600)
+    out, _ = run.go("^(TestHandoffGiveUpRace|TestUnblockRace|TestArrivalRace|TestReleaseOrder|TestReleaseArrival|TestCancelArrival)$", env={"VERIF_N": 6 if run.tier == "thorough" else 2}, timeout=600)
     for fname, label in (("handoff_trace.ndjson", "handoff-race"), ("unblock_trace.ndjson", "unblock-race"), ("arrival_trace.ndjson", "arrival-race"), ("release_trace.ndjson", "release-order"),
-                         ("relarrival_trace.ndjson", "release-arrival")):
+                         ("relarrival_trace.ndjson", "release-arrival"), ("cancelarrival_trace.ndjson", "cancel-arrival")):
         tp = os.path.join(out, fname)
         rejects, total = validate_sharded(run, "WrapperTrace", "Wrapper_trace.cfg", tp)
         run.events += total
